@@ -30,6 +30,10 @@ GDB = {
     # named after a shipped gene (regions up/e1..e3/down exist in the shipped illumina profile): usable with the
     # shipped profiles ("exome", "wgs", "illumina"), which only list shipped gene names
     "cyp2a6": dict(name="CYP2A6", seed=20240613, b19=5000, b38=7000, gap=20, first="up"),
+    # C01 (planted samples): additionally a site with two catalogued variants (*1.003 / *3.002), a deletion with a
+    # substitution of the same allele a few bases away (*10) and an isolated insertion (*11); with and without pseudogene
+    "pta": dict(name="PTA", seed=20240614, b19=5000, b38=7000, gap=30, planted=True),
+    "ptn": dict(name="PTN", seed=20240615, b19=3000, b38=2000, gap=0, planted=True, pseudo=False),
 }
 # copy-number neutral regions (per build) on the same contig
 NEUTRAL = {"hg19": (CONTIG, 10000, 10060), "hg38": (CONTIG, 11000, 11060)}
@@ -63,6 +67,7 @@ def gdb_text(key):
     spec = GDB[key]
     name, s, gap, b19, b38 = spec["name"], _seq(spec["seed"]), spec["gap"], spec["b19"], spec["b38"]
     W = 200 + gap
+    pseudo = spec.get("pseudo", True)
 
     def sub(p, k=1):
         return f"{s[p - 1]}>{_other(s[p - 1], k)}"
@@ -76,8 +81,9 @@ def gdb_text(key):
         return "del" + s[p - 1:p - 1 + n]
 
     def ins(p, n):
-        # inserted before RefSeq base p; chosen so that the placement is unique (no shift equivalents)
-        before, after = s[p - 2], s[p - 1]
+        # [p, insX] = p_(p+1)insX: inserted AFTER RefSeq base p (the convention of the shipped databases, of the
+        # loader's strand conversion and of the realignment step); chosen so that the placement is unique
+        before, after = s[p - 1], s[p]
         first = next(b for b in "ACGT" if b not in (before, after))
         last = next(b for b in "TGCA" if b not in (before, after, first)) if n > 1 else ""
         return "ins" + first + ("" if n == 1 else last)
@@ -87,7 +93,7 @@ def gdb_text(key):
         for rn, a, b in REGION_LAYOUT:
             rn = spec.get("first", rn) if rn == "tmp" else rn
             row = []
-            for g0 in (100 + gap, 0):                  # gene, pseudogene (locus coordinate of the first base)
+            for g0 in ((100 + gap, 0) if pseudo else (100 + gap,)):   # gene, pseudogene (locus coordinate of the first base)
                 ua, ub = g0 + a, g0 + b
                 if build == "hg19":
                     row += [b19 + ua + 1, b19 + ub + 1]
@@ -122,14 +128,21 @@ def gdb_text(key):
         f"   {name}*9.001:", f"      label: {name}*9", "      mutations:",
         f"      - [15, {sub(15, 2)}, -, functional]",
         f"      - [51, {sub(51, 3)}, -, functional]",
-        f"   {name}*7.001:", f"      label: {name}*7", "      mutations:",
-        f"      - [{name}P, i2-]",
+        *([f"   {name}*1.003:", f"      label: {name}*1C", "      mutations:",
+           f"      - [38, {sub(38, 2)}, -]",
+           f"   {name}*10.001:", f"      label: {name}*10", "      mutations:",
+           f"      - [71, {dele(71, 3)}, -, frameshift]",
+           f"      - [76, {sub(76, 1)}, -]",
+           f"   {name}*11.001:", f"      label: {name}*11", "      mutations:",
+           f"      - [88, {ins(88, 2)}, -, frameshift]"] if spec.get("planted") else []),
+        *([f"   {name}*7.001:", f"      label: {name}*7", "      mutations:",
+           f"      - [{name}P, i2-]"] if pseudo else []),
         f"   {name}*8.001:", f"      label: {name}*8DEL", "      mutations:",
         f"      - [{name}, deletion]",
-        "structure:", f"   genes: [{name}, {name}P]", "   regions:",
+        "structure:", f"   genes: [{name}, {name}P]" if pseudo else f"   genes: [{name}]", "   regions:",
         "      hg19:", *regions("hg19"),
         "      hg38:", *regions("hg38"),
-        "   cn_regions: [e1, i1, e2, i2, e3]", "   tandems: [['1', '7']]",
+        "   cn_regions: [e1, i1, e2, i2, e3]", "   tandems: [['1', '7']]" if pseudo else "   tandems: []",
         "reference:", f"   name: NG_{name}", "   mappings:",
         f"      hg19: ['{CONTIG}', {b19 + 100 + gap + 1}, {b19 + W + 1}, '+', M100]",
         f"      hg38: ['{CONTIG}', {b38 + 1}, {b38 + 101}, '-', M100]",
@@ -179,7 +192,8 @@ def allele_variants(gene, minor):
 
 
 def haplotype(variants):
-    """-> (substituted bases {pos: base}, deleted positions set, insertions {pos: bases inserted before pos})"""
+    """-> (substituted bases {pos: base}, deleted positions set, insertions {pos: bases inserted before pos});
+    a catalogued insertion (p, insX) lies AFTER genome position p, i.e. before p + 1"""
     subs, dels, inss = {}, set(), {}
     for pos, op in variants:
         if ">" in op:
@@ -188,7 +202,7 @@ def haplotype(variants):
                 if c != ".":
                     subs[pos + i] = c
         elif op.startswith("ins"):
-            inss[pos] = op[3:]
+            inss[pos + 1] = op[3:]
         elif op.startswith("del"):
             dels.update(range(pos, pos + len(op) - 3))
     return subs, dels, inss
@@ -261,7 +275,7 @@ def config_intervals(gene, config):
     return out
 
 
-def copy_reads(rng, gene, config, minor, depth, tag, error=0.0, extra=(), parts=("gene", "pseudo")):
+def copy_reads(rng, gene, config, minor, depth, tag, error=0.0, extra=(), parts=("gene", "pseudo"), rl=RL):
     """reads of one gene copy: every region the configuration contains is covered `depth` times; the gene part
     carries the variants of `minor` (+ `extra`)"""
     variants = (allele_variants(gene, minor) if minor else []) + list(extra)
@@ -271,7 +285,7 @@ def copy_reads(rng, gene, config, minor, depth, tag, error=0.0, extra=(), parts=
     for gi, s, e in config_intervals(gene, config):
         if ("gene" if gi == 0 else "pseudo") not in parts:
             continue
-        for (a, b) in tile(s, e, depth):
+        for (a, b) in tile(s, e, depth, rl):
             r = make_read(gene, a, b, hap if gi == 0 else none, rng, error)
             if r is not None:
                 reads.append({"name": f"{tag}_{len(reads)}", "contig": CONTIG, "pos": r[0], "cigar": r[1], "seq": r[2],
@@ -286,13 +300,13 @@ def filler_reads(rng, s, e, depth, tag):
             for i, (a, b) in enumerate(tile(s, e, depth))]
 
 
-def sample_reads(rng, gene, copies, neutral_depth, genome="hg19", error=0.0):
+def sample_reads(rng, gene, copies, neutral_depth, genome="hg19", error=0.0, rl=RL):
     """copies: [(config, minor allele or None, depth[, "gene"])].  Reads of the copies + the neutral region.
     A copy marked "gene" is an additional copy of the gene alone (a duplication does not copy the pseudogene)."""
     reads = []
     for i, (config, minor, depth, *part) in enumerate(copies):
         reads += copy_reads(rng, gene, config, minor, depth, f"c{i}", error,
-                            parts=("gene",) if part and part[0] == "gene" else ("gene", "pseudo"))
+                            parts=("gene",) if part and part[0] == "gene" else ("gene", "pseudo"), rl=rl)
     if neutral_depth:
         _, s, e = NEUTRAL[genome]
         reads += filler_reads(rng, s, e, neutral_depth, "n")
@@ -365,15 +379,15 @@ def write_sample_bam(path, reads, contigs=None):
 _PROFILE_BAMS = {}
 
 
-def profile_bam(ctx, keys, genome, depth=10):
+def profile_bam(ctx, keys, genome, depth=10, rl=RL):
     """BAM of a two-copy reference sample (every gene *1/*1, uniform depth) used as the coverage profile"""
-    k = (tuple(keys), genome, depth)
+    k = (tuple(keys), genome, depth, rl)
     if k not in _PROFILE_BAMS:
         rng = random.Random(f"profile/{k}")
         reads = []
         for key in keys:
             g19 = load_gdb(ctx, key, "hg19")
-            rs = sample_reads(rng, g19, [("1", "1.001", depth), ("1", "1.001", depth)], 0)
+            rs = sample_reads(rng, g19, [("1", "1.001", depth), ("1", "1.001", depth)], 0, rl=rl)
             for i, r in enumerate(rs):
                 r["name"] = f"{key}_{r['name']}"
             reads += rs
@@ -382,7 +396,7 @@ def profile_bam(ctx, keys, genome, depth=10):
         if genome == "hg38":
             for key in keys:
                 reads = mirror_reads(reads, key, neutral=(key == keys[-1]))
-        path = os.path.join(session_tmp(), f"profile_{'_'.join(keys)}_{genome}_{depth}.bam")
+        path = os.path.join(session_tmp(), f"profile_{'_'.join(keys)}_{genome}_{depth}_{rl}.bam")
         write_sample_bam(path, reads)
         _PROFILE_BAMS[k] = path
     return _PROFILE_BAMS[k]
@@ -427,6 +441,7 @@ class StageRecorder:
 
     def __init__(self):
         self.cn = None            # [(text, score)]
+        self.cn_dicts = None      # [{configuration: copies}] of the structure stage
         self.major = []           # [(structure text, major text, score as returned)]
         self.minor_in = None      # [(structure text, major text, score)] handed to the minor stage
         self.minor = None         # [(structure text, major text, minor text, score as returned)]
@@ -451,6 +466,7 @@ class StageRecorder:
             rec.calls.append("cn")
             res = o_cn(*a, **k)
             rec.cn = [(s._solution_nice(), s.score) for s in res]
+            rec.cn_dicts = [{c: n for c, n in s.solution.items() if n} for s in res]
             return res
 
         def w_major(gene, coverage, cn_solution, *a, **k):
